@@ -729,10 +729,30 @@ class Interp:
                 raise PyRaise(ExcVal(type(e), list(e.args)))
         raise Unsupported(f"native call {qual} with symbolic arguments")
 
+    def join_abstract(self, sep, seq):
+        """sep.join(f(x) for x in xs) over an abstract sequence of any length: an atom that denotes 'the texts f(x_0) sep f(x_1) ...
+        of ALL elements, each once, in order'.  f is applied here to one arbitrary element of every admissible kind, so the
+        contract can inspect what is joined per element (meta['elements'])."""
+        c = seq.contract
+        if c is None:
+            raise Unsupported(f"join over abstract sequence {seq.name} without a loop contract")
+        elems = {}
+        for kind in c.element_kinds():
+            el = c.make_element(self, kind, seq)
+            for f in seq.maps:
+                el = f(self, el)
+            if not (is_strlike(el) or isinstance(el, Atom)):
+                self.raise_(TypeError, "sequence item: expected str instance")
+            elems[kind] = el
+        self.ctx.stats["assumed_calls"][f"join rule applied: {c.name}"] = 1
+        return Tpl([Atom(f"join!{seq.name}", 0, kind="join", meta={"sep": sep, "elements": elems, "length": seq.length, "seq": seq})])
+
     def call_native_method(self, recv, name, args, kwargs):
         ctx = self.ctx
         if isinstance(recv, Tpl):
             return self.tpl_method(recv, name, args, kwargs)
+        if isinstance(recv, str) and name == "join" and isinstance(args[0], AbsSeq):
+            return self.join_abstract(recv, args[0])
         if isinstance(recv, str) and name == "join":
             (seq,) = args
             seq = list(self.iterate(seq))
@@ -1595,6 +1615,18 @@ class AbsSeq(NativeAbs):
     """Abstract sequence of unknown length n >= 0 (e.g. an argument list, the lines of a file); can only be
     iterated through a loop contract."""
     pytype = list
+
+    def getitem(self, it, k):
+        # xs[k] for a concrete k: an arbitrary element of the first admissible kind (the contract decides what an element is);
+        # IndexError unless k < len(xs) on this path
+        if not isinstance(k, int) or k < 0 or self.contract is None:
+            raise Unsupported(f"subscript {k!r} on abstract sequence {self.name}")
+        if not it.ctx.branch(self.length > k):
+            it.raise_(IndexError, "list index out of range")
+        el = self.contract.make_element(it, self.contract.element_kinds()[0], self)
+        for f in self.maps:
+            el = f(it, el)
+        return el
 
     def __init__(self, name, contract=None, length=None):
         self.name = name
